@@ -16,7 +16,38 @@ fn parse1(src: &str) -> Result<H, String> {
     Ok(v.into_iter().next().unwrap())
 }
 
+fn contains_not(h: &H) -> bool {
+    if matches!(h, H::Un(UOp::Not, _)) {
+        return true;
+    }
+    let mut found = false;
+    h.for_children(&mut |c| found = found || contains_not(c));
+    found
+}
+
 fn check_tree(sink: &mut Sink, t: &H, class: &str) {
+    check_tree_one(sink, t, class);
+    // the same tree as the body of a function (function bodies have a grammar rule of their own, a copy of the expression rule)
+    if !matches!(t, H::Lam(..)) {
+        check_tree_one(sink, &lam1("p", t.clone()), &format!("{} in-lambda-body", class));
+    }
+    // and with prefix `not` spelled as a word
+    if contains_not(t) {
+        for (tree, cl) in [(t.clone(), format!("{} word-not", class)), (lam1("p", t.clone()), format!("{} word-not in-lambda-body", class))] {
+            let mut pr = Printer::new(Mode::Min);
+            pr.word_not = true;
+            let text = pr.print_stmt(&tree);
+            sink.case(&format!("table-word-not|{}", text), true);
+            match parse1(&text) {
+                Ok(a) if a == tree => {}
+                Ok(a) => sink.viol(&format!("table grouping class={}", cl), "the word spelling of prefix not groups differently from the symbol spelling", json!({"text": text, "parsed_as": print_full(&a), "intended": print_full(&tree)})),
+                Err(e) => sink.viol(&format!("table minimal-unparsable class={}", cl), "text with the word spelling of prefix not does not parse", json!({"text": text, "error": e})),
+            }
+        }
+    }
+}
+
+fn check_tree_one(sink: &mut Sink, t: &H, class: &str) {
     let m = print_min(t);
     let p = print_full(t);
     let nontrivial = m != p;
